@@ -128,14 +128,16 @@ def make_interp(ctx, data_checked=True, extra=None):
     def s_sysexdata(interp, args, kwargs, node):
         src = args[0] if args else AList([], 'tuple')
         if isinstance(src, AList):
-            return AList(src.items, 'tuple')
+            return AList(interp.iterate(src, node, keep_vars=True), 'tuple')
         if isinstance(src, (tuple, list)):
             return AList(list(src), 'tuple')
         return src
     ai.summaries['mido/messages/messages.py::SysexData'] = s_sysexdata
 
     def s_deque(interp, args, kwargs, node):
-        return AList(list(interp.iterate(args[0], node)) if args else [], 'deque')
+        r = AList(list(interp.iterate(args[0], node)) if args else [], 'deque')
+        r.maxlen = kwargs.get('maxlen', args[1] if len(args) > 1 else None)
+        return r
     ai.summaries['collections.deque'] = s_deque
 
     def deque_hook(interp, base, name, args, kwargs, node):
